@@ -556,6 +556,61 @@ func arraysRun[T num, A arr[T, A]](k kit[T, A], rc *RunCtx, o *Outcome) {
 					checkStores(what)
 				}
 				o.probe("ND3_accessors")
+			default:
+				// the two- and three-index helpers on an array with more axes: the missing trailing
+				// indices are 0 (an [n,m,k] array read as its [n,m] front face)
+				if len(rv.shape) == 3 || w.Bool(50) {
+					i, j := w.Choose(rv.shape[0]), w.Choose(rv.shape[1])
+					val := uniq()
+					what := fmt.Sprintf("%s.Set2(%d,%d,%v)+Get2 on %d axes", rv.how, i, j, val, len(rv.shape))
+					x.log = append(x.log, what)
+					var gv, cv T
+					both(what, "view", v, func(a A) {
+						a2 := any(a).(interface {
+							Get2(int, int) T
+							Set2(int, int, T)
+						})
+						a2.Set2(i, j, T(val))
+						if any(a) == any(v.g) {
+							gv = a2.Get2(i, j)
+						} else {
+							cv = a2.Get2(i, j)
+						}
+					})
+					pidx := make([]int, len(rv.shape))
+					pidx[0], pidx[1] = i, j
+					r.store[rv.offs[flatIndex(pidx, rv.shape)]] = val
+					if !x.aborted {
+						expect(what, "view", val, gv, cv)
+						checkStores(what)
+					}
+				} else {
+					i, j, l := w.Choose(rv.shape[0]), w.Choose(rv.shape[1]), w.Choose(rv.shape[2])
+					val := uniq()
+					what := fmt.Sprintf("%s.Set3(%d,%d,%d,%v)+Get3 on %d axes", rv.how, i, j, l, val, len(rv.shape))
+					x.log = append(x.log, what)
+					var gv, cv T
+					both(what, "view", v, func(a A) {
+						a3 := any(a).(interface {
+							Get3(int, int, int) T
+							Set3(int, int, int, T)
+						})
+						a3.Set3(i, j, l, T(val))
+						if any(a) == any(v.g) {
+							gv = a3.Get3(i, j, l)
+						} else {
+							cv = a3.Get3(i, j, l)
+						}
+					})
+					pidx := make([]int, len(rv.shape))
+					pidx[0], pidx[1], pidx[2] = i, j, l
+					r.store[rv.offs[flatIndex(pidx, rv.shape)]] = val
+					if !x.aborted {
+						expect(what, "view", val, gv, cv)
+						checkStores(what)
+					}
+				}
+				o.probe("two_or_three_index_helpers_on_more_axes")
 			}
 		case kind <= 8: // Apply: a 1-D run along one dimension
 			rank := len(rv.shape)
